@@ -1,21 +1,44 @@
 """C01 — loading and inspecting arbitrary bytes is memory-safe and terminates.
 
-Proof (Props/C01.lean): `load_total` (the loader model, whose every buffer access is a checked
-read, never faults on ANY byte string, eager or lazy), `load_alloc_bound` (no allocation request
-exceeds len+1) and `inspect_total` for the inspection interface, composed from the accessor
-families' `*_total` theorems; see the theorem list in the evidence for what is discharged in this
-run.  Correspondence: harness/load.cpp (real code under ASan/UBSan/_GLIBCXX_ASSERTIONS, allocation
+Proof (Props/C01.lean, helper lemmas Lemmas/LoadSafety.lean; for ALL byte strings, both stream kinds,
+eager and lazy, any stream state, any previous object):
+ * `load_total` / `load_total_anyStream`: the loader model, whose every buffer access is a checked
+   read, never faults (also with an address translation table);
+ * `load_inv` (`secLoad_inv`, `segLoad_inv`): every section/segment of the result satisfies
+   `LoadedSec` / `LoadedSeg`: a resident buffer is exactly the `size` input bytes at the (translated)
+   offset plus the NUL terminator (`alloc 1` for size 0), data_size = size, the recorded stream size is
+   the input length or SIZE_MAX (then the section is the zeroed SHT_NULL one);
+ * `load_alloc_shape` / `load_alloc_bound`: every allocation request is size+1 for a range inside the
+   input, hence <= len+1, with equality exactly for the range [0,len) (finding F11); hypotheses: no
+   translation, len < 2^64;
+ * `getData_inv` / `getData_alloc_bound`: arbitrary interleavings of section/segment get_data() and
+   free_data() with arbitrary indices keep the invariants and the allocation bound (lazy loads mutate);
+ * `getString_total`: the string reader is safe on every loaded section for EVERY 32-bit index and
+   returns a NUL-free run of input bytes inside [0,size);
+ * `LoadedSec.size_lt / resident_facts / rdRange_ok`, `exposes_only_file_bytes`: what the accessor
+   families' `*_total` theorems instantiate.
+ Remark: `validate` (Model/Validate.lean) is a total pure function — nothing to prove.
+Partial: symbol/note/dynamic/modinfo readers and `dump` are the accessor families' theorems (C13, C12,
+C14, C18 ...) instantiated with `LoadedSec`; here they are covered by correspondence only.  The theorems
+are about the checked-memory model; the implementation side of memory safety is observed by sanitizers
+on the generated inputs.  Termination is Lean's (all model functions are structurally recursive).
+Correspondence: harness/load.cpp (real code under ASan/UBSan/_GLIBCXX_ASSERTIONS, allocation
 log through operator new[](nothrow)) vs Driver/Load.lean.  Oracle: no FAULT anywhere, every logged
 allocation <= len+1 (== len+1 is the open known finding F11: the NUL terminator).
-Partial: the theorem is about the checked-memory model; the implementation side of memory safety
-is observed by sanitizers on the generated inputs (structure-aware mutations, prefixes, random).
 """
 from families.loadcommon import *
 
 PROPERTY = "C01"
 FAMILY = "load"
 LEAN_MODULE = "ElfioVerif.Props.C01"
-THEOREMS = ["ElfioVerif.C01.load_total", "ElfioVerif.C01.load_alloc_bound"]
+THEOREMS = ["ElfioVerif.C01.load_total", "ElfioVerif.C01.load_total_anyStream", "ElfioVerif.C01.load_inv",
+            "ElfioVerif.C01.secLoad_inv", "ElfioVerif.C01.segLoad_inv",
+            "ElfioVerif.C01.load_alloc_bound", "ElfioVerif.C01.load_alloc_shape",
+            "ElfioVerif.C01.getData_inv", "ElfioVerif.C01.getData_alloc_bound",
+            "ElfioVerif.C01.getString_total", "ElfioVerif.C01.exposes_only_file_bytes",
+            "ElfioVerif.C01.seg_exposes_only_file_bytes",
+            "ElfioVerif.C01.LoadedSec.size_lt", "ElfioVerif.C01.LoadedSec.resident_facts",
+            "ElfioVerif.C01.LoadedSec.rdRange_ok"]
 SITES = ["conv", "is_sect_in_seg", "load_s", "sec32_load", "sec64_load", "seg32_load", "seg64_load", "validate", "find_prog"]
 RULE = ("byte strings: random bytes behind each of the four valid idents; structure-aware mutations "
         "(tools/elfspec.mutate: boundary values 0,1,len-1,len,len+1,2^31,2^32-1,2^63,2^64-1 in header/table "
@@ -23,7 +46,7 @@ RULE = ("byte strings: random bytes behind each of the four valid idents; struct
         "archived crash-* files; x {eager,lazy} x {string,file}; each followed by hdr, every section/segment "
         "(+1 beyond), section-name string lookups at boundary indices, validate, dump. non-trivial = load "
         "returned true or at least one section was created; distinct by md5")
-ASSUMPTIONS = ["new(nothrow) succeeds for requests <= len+1", "inputs < 2 GiB (theorem hypothesis len < 2^31)"]
+ASSUMPTIONS = ["new(nothrow) succeeds for requests <= len+1", "inputs shorter than 2^64 bytes (hypothesis of the allocation bound only)"]
 TRUSTED = ["ASan/UBSan/_GLIBCXX_ASSERTIONS as fault detectors on the implementation side"]
 KEEP_FIRST = 1
 
